@@ -54,6 +54,8 @@ func Clients() (*world.World, *world.Chain) {
 		for _, n := range []string{"bsc-cp", "eth-cp", "tss-cp"} {
 			c.App.XIBCKeeper.ClientKeeper.RegisterRelayers(ctx, c.Accounts["r1"].Acc.String(), []string{"bsc-cp", "eth-cp", "tss-cp"}, []string{"a", "b", "c"})
 			c.App.XIBCKeeper.ClientKeeper.RegisterRelayers(ctx, c.Accounts["tss"].Acc.String(), []string{"tss-cp"}, []string{"t"})
+			// a registration that names chains more than once (stateless validation accepts it)
+			c.App.XIBCKeeper.ClientKeeper.RegisterRelayers(ctx, world.NewAccount("dup-relayer").Acc.String(), []string{"eth-cp", "bsc-cp", "eth-cp", "tss-cp", "bsc-cp", "other-cp"}, []string{"a1", "b1", "a2", "t1", "b2", "o1"})
 			_ = n
 		}
 	})
